@@ -12,7 +12,7 @@ ENGINE = "E2"
 TECHNIQUE = "exhaustive enumeration of code-byte windows (real objdump) and grammar lines through the real parser and consumer; decode(stream) must equal the parsed instruction list; pairwise injectivity on a reduced alphabet"
 RULE = ("every instruction list the real parser produces from (b) the real objdump output of EVERY one-byte prefix x 16 tails "
         "and EVERY two-byte prefix x T tails (quick 3, thorough 16, plus third-byte sweeps) for both ELF classes, and (a) "
-        "EVERY operand-grammar line of C09; plus sections ending in every 1-byte / prefix-led 2-byte sequence, ~70 exotic instructions (AVX-512 {%k1}{z}/{1to16}, x87 %st(i), string ops, segment overrides, far branches) through real as+objdump, and long listings (2^16+-1 instructions). Oracle: decode(stream) (split on '|', "
+        "EVERY operand-grammar line of C09; plus sections ending in every 1-byte / prefix-led 2-byte sequence, ~70 exotic instructions (AVX-512 {%k1}{z}/{1to16}, x87 %st(i), string ops, segment overrides, far branches) through real as+objdump in the default layout and with --insn-width=15 (every instruction on one line), and long listings (2^16+-1 instructions). Oracle: decode(stream) (split on '|', "
         "first '::', ',') == list of (addr, mnemonic, operands) returned by the public parse function, and "
         "encode(decode(stream)) == stream; injectivity checked directly: all ordered pairs of distinct instruction lists of "
         "length <= 2 over a 7-instruction alphabet (incl. operand-less, empty-looking and separator-adjacent fields) give "
